@@ -220,6 +220,11 @@ pub fn core_fingerprint(w: &World) -> String {
                     c.first_poll_ms,
                     w.needs_poll(i) as u8
                 );
+                // a call future that has not been polled yet may hold what call() sampled when
+                // it was made (only a late executor lets time pass in between)
+                if c.polls == 0 && c.arrived_ms != Some(now) {
+                    let _ = write!(s, "a{:?}", c.arrived_ms);
+                }
             }
             Phase::Done(o) => {
                 let _ = write!(s, "D({}){}", o.tag(), if c.fut.is_some() { "+fut" } else { "" });
